@@ -89,6 +89,9 @@ func (opts Options) NewDesccriptorFromContent(ctx context.Context, path, content
 
 	var pbParser protoparse.Parser
 	// add main proto to includes
+	if includes == nil {
+		includes = make(map[string]string, 1)
+	}
 	includes[path] = content
 
 	ImportPaths := []string{""} // default import "" when path is absolute path, no need to join with importDirs
